@@ -126,6 +126,68 @@ def _gensym():
     return f"_ptera__{next(_IDX)}"
 
 
+class _Mangler(NodeTransformer):
+    """Mangle the private names of a method like its class body did.
+
+    The source of a method is compiled again outside of its class: names
+    such as ``__x`` would not be transformed to ``_Class__x`` anymore.
+    """
+
+    def __init__(self, classname):
+        self.prefix = "_" + classname.lstrip("_")
+
+    def mangle(self, name):
+        if (
+            isinstance(name, str)
+            and name.startswith("__")
+            and not name.endswith("__")
+            and "." not in name
+        ):
+            return self.prefix + name
+        return name
+
+    def visit_Name(self, node):
+        node.id = self.mangle(node.id)
+        return node
+
+    def visit_Attribute(self, node):
+        self.generic_visit(node)
+        node.attr = self.mangle(node.attr)
+        return node
+
+    def visit_arg(self, node):
+        self.generic_visit(node)
+        node.arg = self.mangle(node.arg)
+        return node
+
+    def visit_keyword(self, node):
+        self.generic_visit(node)
+        node.arg = self.mangle(node.arg)
+        return node
+
+    def visit_FunctionDef(self, node):
+        self.generic_visit(node)
+        node.name = self.mangle(node.name)
+        return node
+
+    visit_AsyncFunctionDef = visit_FunctionDef
+
+    def visit_ExceptHandler(self, node):
+        self.generic_visit(node)
+        node.name = self.mangle(node.name)
+        return node
+
+    def visit_Global(self, node):
+        node.names = [self.mangle(name) for name in node.names]
+        return node
+
+    visit_Nonlocal = visit_Global
+
+    def visit_ClassDef(self, node):
+        # A nested class mangles with its own name
+        return node
+
+
 def _find_declarations(stmts):
     """Find the global/nonlocal declarations of a function, at any depth."""
     found = []
@@ -1281,6 +1343,14 @@ def transform(fn, proceed, to_instrument=True, set_conformer=True):
             f"{fn} cannot be tooled: it is not defined by a def statement"
         )
     tree.decorator_list = []
+    owner = fn.__qualname__.split(".")[-2:-1]
+    if owner and owner[0] != "<locals>" and owner[0].lstrip("_"):
+        # fn was defined in a class body
+        for stmt in tree.body:
+            _Mangler(owner[0]).visit(stmt)
+        for arg in ast.walk(tree.args):
+            if isinstance(arg, ast.arg):
+                arg.arg = _Mangler(owner[0]).mangle(arg.arg)
 
     fnsym = _gensym()
     glb = fn.__globals__
